@@ -251,6 +251,10 @@ fn c11(seed: u64, tier: &str, thorough: bool) -> CheckPlan {
         jobs.push(job("C11", "faults", seed, tier, json!({"steps": format!("{s}/direct")})));
         jobs.push(job("C11", "faults", seed, tier, json!({"steps": format!("{s}/seq-map+display/wrapper")})));
     }
+    // every documented function under forbidden permissions
+    for part in 0..32 {
+        jobs.push(job("C11", "doc-seams", seed, tier, json!({"part": part, "parts": 32})));
+    }
     let mut rng = Prng::new(derive(seed, "c11multi", 0));
     let n_multi = if thorough { 1500 } else { 150 };
     for i in 0..n_multi {
@@ -278,7 +282,7 @@ fn c11(seed: u64, tier: &str, thorough: bool) -> CheckPlan {
         ],
         opts: SupOpts::default(),
         required_probes: vec!["refused_site".into(), "refused_at_instantiate".into(), "unset_permission_default_used".into(), "permission_changed_after_being_set".into(), "write_fault_to_output_failure".into(),
-            "soft_write_fault_transparent".into(), "clock_fault_runs".into(), "rng_fault_runs".into()],
+            "soft_write_fault_transparent".into(), "clock_fault_runs".into(), "rng_fault_runs".into(), "doc_seam_runs".into(), "doc_seam_refused".into()],
         exhaustive: false,
         extra: json!({"sites": SITES.len(), "carriers": CARRIERS.len()}),
     }
@@ -368,6 +372,12 @@ fn c12(seed: u64, tier: &str, thorough: bool) -> CheckPlan {
     }
     for (label, text) in crate::checks::c12::sandbox_texts().into_iter().chain(crate::checks::c12::long_tuple_texts().into_iter()) {
         jobs.push(job("C12", "text", derive(seed, &label, 0), tier, json!({"label": label, "text": text, "envs": envs * 2})));
+    }
+    // every documented function called with one ill-typed argument: the overload-listing error text
+    for (k, (label, text)) in crate::docsig::ill_typed_texts().into_iter().enumerate() {
+        if thorough || (k as u64 + seed) % 4 == 0 {
+            jobs.push(job("C12", "text", derive(seed, &label, 0), tier, json!({"label": label, "text": text, "envs": if thorough { envs } else { 2 }})));
+        }
     }
     for (label, text) in crate::checks::c12::book_examples() {
         jobs.push(job("C12", "text", derive(seed, &label, 0), tier, json!({"label": label, "text": text, "envs": envs})));
